@@ -2,7 +2,7 @@
    with the model, plus the property predicates of C03 / C08 / C17 evaluated on the implementation's
    own output. *)
 From Coq Require Import String.
-From SLX Require Import Base gen.Constants gen.ValueSig gen.OpcodeTable SymVal Micro gen.OpcodeSem Disasm VM QuickFold.
+From SLX Require Import Base gen.Constants gen.ValueSig gen.OpcodeTable SymVal Micro gen.OpcodeSem Disasm VM Fold.
 Open Scope N_scope.
 
 Inductive xrun :=
@@ -39,7 +39,7 @@ Definition stored_eqb (a b : vstate * list (N * N)) : bool :=
 Definition pair_eqb (a b : N * N) : bool := (fst a =? fst b) && (snd a =? snd b).
 
 Definition model_run (code : list instr) (cfg : config) : exec_result :=
-  run_p qfold (2 ^ 40)%positive (init_vm code cfg).
+  run_p constant_fold (2 ^ 40)%positive (init_vm code cfg).
 
 Definition model_errors (r : exec_result) : list (N * N) :=
   match r with
